@@ -114,6 +114,10 @@ pub struct Cfg {
     pub offset: u8,
 }
 
+/// Smallest base <x,y> + c of a polynomial kernel with a fractional degree (by construction of c).
+pub const FRACTIONAL_BASE_MIN: f64 = 0.5;
+pub const POLY_DEGREES: [f64; 7] = [1.0, 2.0, 3.0, 1.5, 2.5, 0.5, 3.3];
+
 /// Offset magnitudes by selector. f32: offset^2 * eps_mach reaches ~0.1 at 1e3; f64: at ~3e7.
 pub const OFFSETS_F64: [f64; 8] = [0.0, 0.0, 0.0, 10.0, 100.0, 1000.0, 1e7, 1e8];
 pub const OFFSETS_F32: [f64; 8] = [0.0, 0.0, 0.0, 10.0, 100.0, 300.0, 1000.0, 1000.0];
@@ -127,6 +131,10 @@ pub fn build(cfg: Cfg, rows: &[RowIng], fresh: &[RowIng]) -> Case {
     let single = cfg.single;
     let classification = matches!(cfg.task, TaskIng::CSvc { .. } | TaskIng::NuSvc { .. });
     let one_class = matches!(cfg.task, TaskIng::OneClass { .. });
+    // polynomial kernel with a fractional degree: the features are halved, which keeps the constant the
+    // kernel needs (below) and with it the kernel values (<= ~6^3.3) in the range of the integer degrees
+    let fractional = matches!(cfg.kernel, Kern::Poly(_, d) if d.fract() != 0.0);
+    let fscale = if fractional { 0.5 } else { 1.0 };
 
     // labels (always at least one sample of either class: rows 0 and 1 are pinned)
     let thr: u32 = if cfg.layout == Layout::Imbalanced { 10923 } else { 32768 };
@@ -162,6 +170,9 @@ pub fn build(cfg: Cfg, rows: &[RowIng], fresh: &[RowIng]) -> Case {
             } else {
                 0.8 * g[j]
             };
+        }
+        for v in row.iter_mut() {
+            *v *= fscale;
         }
         if cfg.layout == Layout::Duplicates && i >= 2 && r.4 < 16384 {
             // copy the features of an earlier row; the label / target of this row stays
@@ -258,20 +269,37 @@ pub fn build(cfg: Cfg, rows: &[RowIng], fresh: &[RowIng]) -> Case {
         },
         TaskIng::OneClass { nu } => Task::OneClass { nu: r32(ONE_CLASS_NUS[(nu as usize).min(4)], single) },
     };
-    let kernel = match cfg.kernel {
-        Kern::Linear => Kern::Linear,
-        Kern::Gaussian(e) => Kern::Gaussian(r32(e, single)),
-        Kern::Poly(c, d) => Kern::Poly(r32(c, single), d),
-    };
-    let fresh = fresh
+    let fresh: Vec<Vec<f64>> = fresh
         .iter()
         .map(|r| {
-            let g = [r.0, r.1, r.2];
-            let mut row: Vec<f64> = (0..p).map(|j| r32((1.2 * g[j] * 65536.0).round() / 65536.0, single)).collect();
+            // with a fractional degree the fresh points stay in the box of the training noise, which bounds
+            // the constant the kernel needs (below)
+            let lim = if fractional { 2.5 } else { f64::INFINITY };
+            let g = [r.0.clamp(-lim, lim), r.1.clamp(-lim, lim), r.2.clamp(-lim, lim)];
+            let mut row: Vec<f64> = (0..p).map(|j| r32((1.2 * fscale * g[j] * 65536.0).round() / 65536.0, single)).collect();
             shift(&mut row);
             row
         })
         .collect();
+    let kernel = match cfg.kernel {
+        Kern::Linear => Kern::Linear,
+        Kern::Gaussian(e) => Kern::Gaussian(r32(e, single)),
+        Kern::Poly(c, d) if !fractional => Kern::Poly(r32(c, single), d),
+        Kern::Poly(c, d) => {
+            // (<x,y> + c)^d with a fractional d needs a positive base: the constant is *constructed* from the
+            // smallest inner product between a training row and any training / fresh row so that the base
+            // is >= FRACTIONAL_BASE_MIN for every kernel evaluation of fit and predict (1/16 grid: exact in f32)
+            let mut min_ip = 0.0f64;
+            for xi in &x {
+                for y in x.iter().chain(fresh.iter()) {
+                    let ip: f64 = xi.iter().zip(y).map(|(a, b)| a * b).sum();
+                    min_ip = min_ip.min(ip);
+                }
+            }
+            let c0 = ((-min_ip + FRACTIONAL_BASE_MIN) * 16.0).ceil() / 16.0;
+            Kern::Poly(r32(c0 + c, single), r32(d, single))
+        }
+    };
     Case {
         layout: cfg.layout,
         kernel,
@@ -305,7 +333,8 @@ pub fn kernel() -> impl Strategy<Value = Kern> {
     prop_oneof![
         3 => Just(Kern::Linear),
         4 => (0usize..4).prop_map(|i| Kern::Gaussian(GAUSS_EPS[i])),
-        3 => (0usize..4, 1u8..=3).prop_map(|(c, d)| Kern::Poly([0.0, 0.5, 1.0, 2.0][c], d as f64)),
+        // for the fractional degrees the constant is raised in `build` until every base is positive
+        4 => (0usize..4, 0usize..7).prop_map(|(c, d)| Kern::Poly([0.0, 0.5, 1.0, 2.0][c], POLY_DEGREES[d])),
     ]
 }
 
